@@ -10,7 +10,7 @@ import numpy as np
 
 from .. import gen
 from ..core import Case
-from ..oracles import series
+from ..oracles import clt, series
 
 TOL = 1e-11
 
@@ -19,9 +19,9 @@ def plan(tier):
     n = 480 if tier == 'quick' else 6000
     return dict(sanitize={'extensions': ['compmech.panel.models.clt_bardell_field', 'compmech.panel.models.clt_bardell_field_w'], 'n_cases': 160}, n_cases=n, shards=16, min_nontrivial=n // 3,
                 min_tags={'obj:panel': n // 3, 'obj:assembly': n // 12, 'obj:bay': n // 12, 'NLterms:on': n // 8, 'NLterms:off': n // 8,
-                          'model:cpanel': n // 10, 'model:plate_w': n // 30},
+                          'model:cpanel': n // 10, 'model:plate_w': n // 30, 'order:fresh': n // 6},
                 watchdog_s=1800 if tier == 'quick' else 10000,
-                rule='random amplitude vectors (dense / single-term / w-only / in-plane only), point sets scattered, gridded, on edges and '
+                rule='40% of the objects fresh (field queries are the first calls), the others after calc_k0; stress judged with the laminate matrix of the description; random amplitude vectors (dense / single-term / w-only / in-plane only), point sets scattered, gridded, on edges and '
                      'corners, 1..200 points incl. primes and counts below the thread count, thread counts 1..16, flat / w-only / cylindrical '
                      'models, both NLterms settings, panels inside assemblies (default grids) and stiffened bays with stiffeners in mixed '
                      'order; non-trivial = dense amplitudes and >= 2 points; distinct = hash of the description',
@@ -93,6 +93,12 @@ def reference(p, d, c, xs, ys, num):
     return u, su, e, se, tx, ty
 
 
+def lam_F(d):
+    """6x6 laminate matrix (and its absolute-value scale) from the description - not from the object under test"""
+    lam = d['lam']
+    return clt.ABD6(lam['stack'], lam['plyts'], lam['laminaprops'], lam['offset'], force_ortho=bool(lam.get('force_ortho')))
+
+
 def judge_fields(c, p, d, cvec, xs, ys, num, label='', cin=None):
     """uvw / strain / stress of one Panel at the given points against the reference"""
     u_ref, su, e_ref, se, tx, ty = reference(p, d, cvec, xs, ys, num)
@@ -140,20 +146,20 @@ def judge_fields(c, p, d, cvec, xs, ys, num, label='', cin=None):
                 data={'component': int(np.unravel_index(np.argmax(err), err.shape)[0])})
         res[NL] = E
         # stress = F * (the strains reported for the same request)
-        if p.F is not None:
-            F = np.asarray(p.F)
+        if True:
+            F, SF = lam_F(d)
             sg = p.stress(ci, xs=xs, ys=ys, NLterms=NL)
             c.hit('stress')
             S = np.array([sg[k].ravel() for k in ('Nxx', 'Nyy', 'Nxy', 'Mxx', 'Myy', 'Mxy')])
             Sref = F @ E
-            ssc = np.abs(F) @ np.abs(E) + 1e-300
+            ssc = SF @ np.abs(E) + 1e-300
             mech = None
             bad = float((np.abs(S - Sref) / ssc).max())
             if bad > 1e-12 and not NL:
                 # defect model: stress() ignored NLterms and always used NLterms=True strains
                 Et = p.strain(ci, xs=xs, ys=ys, NLterms=True)
                 Et = np.array([Et[k].ravel() for k in ('exx', 'eyy', 'gxy', 'kxx', 'kyy', 'kxy')])
-                if float((np.abs(S - F @ Et) / (np.abs(F) @ np.abs(Et) + 1e-300)).max()) <= 1e-12:
+                if float((np.abs(S - F @ Et) / (SF @ np.abs(Et) + 1e-300)).max()) <= 1e-12:
                     mech = 'stress-ignores-NLterms'
             c.judge(label + 'stress (NLterms=%s) equals F times the strains of the same request' % NL, bad, 1e-12, mechanism=mech)
     return got, res
@@ -176,10 +182,14 @@ def case_panel(rng, tier):
     p = gen.build_panel(d)
     num = 1 if model == 'plate_w' else 3
     size = num * d['m'] * d['n']
-    try:
-        p.calc_k0(silent=True)
-    except Exception as e:
-        return c.reject('%s in calc_k0: %s' % (type(e).__name__, str(e)[:100]))
+    # 40%: the field queries are the first thing ever asked of the object (post-processing of amplitudes obtained elsewhere)
+    fresh = bool(rng.random() < 0.4)
+    c.tag('order:fresh' if fresh else 'order:k0_first')
+    if not fresh:
+        try:
+            p.calc_k0(silent=True)
+        except Exception as e:
+            return c.reject('%s in calc_k0: %s' % (type(e).__name__, str(e)[:100]))
     t = float(sum(d['lam']['plyts']))
     cvec, ckind = amplitudes(rng, size, num, t)
     xs, ys, pkind = points(rng, d['a'], d['b'])
@@ -268,8 +278,11 @@ def case_assembly(rng, tier):
     ass = PanelAssembly([ps[i] for i in order])
     ass.out_num_cores = int(rng.integers(1, 9))
     size = ass.get_size()
-    for p in ps:
-        p.calc_k0(silent=True)          # defines p.F, r
+    fresh = bool(rng.random() < 0.4)
+    c.tag('order:fresh' if fresh else 'order:k0_first')
+    if not fresh:
+        for p in ps:
+            p.calc_k0(silent=True)
     cfull = rng.normal(size=size) * 1e-3
     gx, gy = int(rng.integers(2, 8)), int(rng.integers(2, 8))
     c.desc.update(order=[int(i) for i in order], groups=groups, gridx=gx, gridy=gy)
@@ -308,9 +321,9 @@ def case_assembly(rng, tier):
                 c.judge('assembly strain (NLterms=%s) of the panel\'s own slice' % NL, err, TOL, mechanism=mech)
                 c.tag('NLterms:on' if NL else 'NLterms:off')
                 S = np.array([rg[NL][kk][k].ravel() for kk in ('Nxx', 'Nyy', 'Nxy', 'Mxx', 'Myy', 'Mxy')])
-                F = np.asarray(p.F)
+                F, SF = lam_F(d)
                 c.judge('assembly stress equals F times the strains of the same request',
-                        float((np.abs(S - F @ E) / (np.abs(F) @ np.abs(E) + 1e-300)).max()), 1e-12)
+                        float((np.abs(S - F @ E) / (SF @ np.abs(E) + 1e-300)).max()), 1e-12)
     return c
 
 
